@@ -442,6 +442,7 @@ def units(tier):
     us.append(("ages",))
     for i in range(len(BASIC_A) + 1):
         us.append(("basic", i))
+    us.append(("inject",))
     us.append(("auth-token",))
     for i in range(len(PARAM_V)):
         us.append(("auth-params", i))
@@ -485,6 +486,26 @@ def run_unit(unit, R, tier):
             check(R, "dict", {"k": v})
             if _opt_ok(v):
                 check(R, "options", ("x/y", {"k": v}))
+        return
+    if kind == "inject":
+        # values that look like the syntax of the header they are embedded in: a separator followed by
+        # something shaped like another item / parameter (a quoted value must hide all of it)
+        n = 0
+        for a in ("", "a", 'a"', "a\\", "é"):
+            for sep in (";", "; ", ",", ", ", " ", '";', '", '):
+                for b in ("b=c", 'b="c"', "b", "k=v", "key2=evil", "filename=evil.txt", "q=0", "b=c;d=e"):
+                    v = a + sep + b
+                    strings_battery(R, v)
+                    check(R, "list", ["x", v, "y"])
+                    check(R, "dict", {"k": v, "key2": "w"})
+                    check(R, "dict", {"key2": "w", "k": v})
+                    if _opt_ok(v):
+                        check(R, "options", ("form-data", {"k": v, "key2": "w"}))
+                        check(R, "options", ("form-data", {"key2": "w", "k": v}))
+                        check(R, "options", ("form-data", {"name": v, "filename": "real.txt"}))
+                    n += 1
+        R.use("inject")
+        R.sample({"family": "inject", "value": 'a"; key2=evil', "count": n})
         return
     if kind == "codepoints":
         for cp in range(unit[1], unit[2]):
